@@ -42,6 +42,7 @@ def gen_case(r, cfg, kind=None, big_align=False):
         lines.append("ar new heap 0 0 0 16")
         model_first = lines[0]
     live, size, nid = [], {}, 0
+    dlen = dcap = 0; barrier = 0; defers = kind == "scope" and r.random() < 0.7
     nops = r.randrange(1, 60) if r.random() < 0.85 else r.randrange(60, 400)
     mxs = min(mx, 1 << 16)
     total = 0
@@ -55,7 +56,14 @@ def gen_case(r, cfg, kind=None, big_align=False):
         k = r.random()
         if total > (8 << 20):
             break
-        if k < 0.5 or not live:
+        if defers and r.random() < 0.3:
+            # gp_scope_defer: the defer stack is allocated from the scope itself (16-byte header + 4 entries of 16 bytes,
+            # doubled by a fresh block when full), right between the caller's blocks
+            if dcap == 0: dlen, dcap, barrier = 1, 4, nid
+            elif dlen == dcap: dlen, dcap, barrier = dlen + 1, dcap * 2, nid
+            else: dlen += 1
+            lines.append("ar defer 16 16")
+        elif k < 0.5 or not live:
             n = pick_size(); total += n
             lines.append("ar %s %d" % ("alloc" if r.random() < 0.8 else "allocz", n))
             live.append(nid); size[nid] = n; nid += 1
@@ -67,7 +75,9 @@ def gen_case(r, cfg, kind=None, big_align=False):
             lines.append("ar realloc %d %d" % (i, n))
             live.remove(i); live.append(i); size[i] = n
         elif kind != "heap":
-            i = r.choice([live[0], live[-1], r.choice(live)])
+            cand = [i for i in live if i >= barrier]      # never rewind the live defer stack away
+            if not cand: continue
+            i = r.choice([cand[0], cand[-1], r.choice(cand)])
             lines.append("ar rewind %d" % i)
             live = live[:live.index(i)]
         else:
